@@ -16,16 +16,22 @@ CHECKS = {
          "C05_builder_sound: the models of the real prefilters (builder add/build decision tree for ANY byte-frequency table, "
          "memchr/memmem as least index) are sound, including the case-insensitive ones; C05_builder_gates. Tie: the real prefilters are "
          "queried through Automaton::prefilter().find_in and compared (variant chosen + candidate) with the model on every span; "
-         "prefilter(true) vs the prefilter-free model end to end; constants and BYTE_FREQUENCIES extracted from the source on every run.",
+         "prefilter(true) vs the prefilter-free model end to end; constants and BYTE_FREQUENCIES extracted from the source on every run. "
+         "Resumed searches (Theorems/C05Resumed.lean): C05_iter_transparent (the non-overlapping iterator), C05_overlap_transparent / "
+         "C05_overlap_iter_transparent (every prefix of the stepwise overlapping call history) under PrefilterSoundOvl, which "
+         "C05_builder_sound_ovl proves for the prefilter the builder chooses under standard semantics; "
+         "C05_overlap_needs_start_soundness is the formal counterexample showing the extra hypothesis cannot be dropped.",
          "5 C05", "Lean proof of prefilter transparency + soundness of each modelled prefilter + differential on candidates and searches"),
  "C19": ("proof",
          "C19_transitions (at most one next_state call per byte of the span, whatever the prefilter does), C19_step_potential / "
          "hops_potential (every failure hop is paid by a decrease of trie depth), C19_fails_le / C19_search (failure-link traversals "
          "<= transitions <= span length, for every pattern list, haystack, match kind, prefilter and with case folding), C19_anchored "
          "(none when anchored), C19_hops_sound (the hop counter and the closed-form next state describe the same failure chain), "
-         "C19_result (the counters do not influence the result), C19_overlap_* for the overlapping loop. Tie: cfg-guarded counters in the "
+         "C19_result (the counters do not influence the result), C19_overlap_* for the overlapping loop (C19_overlap_call_result: the "
+         "per-call counters of the driver are ghost state of try_find_overlapping_fwd; C19_overlap_cost: per call at most "
+         "at' + 1 - at transitions). Tie: cfg-guarded counters in the "
          "real search loops and in both NFA next_state loops; per search the two real counters must EQUAL the model's (DFA: 0 fails), and "
-         "the dump walk records the failure traversals of every (state, byte) next_state call, compared with the model's chain length by "
+         "every call of an overlapping call sequence (anchored or not) likewise; the dump walk records the failure traversals of every (state, byte) next_state call, compared with the model's chain length by "
          "the certificate step (contiguous NFA against noncontiguous, DFA against zero).", "5 C19",
          "Lean potential-function proof on the ideal automaton with explicit failure links + exact counter equality against instrumented code"),
  "C06": ("proof",
@@ -58,12 +64,16 @@ CHECKS = {
          "5 C15", "Lean proof of index arithmetic / match well-formedness on the model + guard-page exploration of the real code"),
  "C07": ("proof",
          "C07_stream_eq_iter / C07_stream_spec: for every non-empty pattern list without the empty pattern, every stream, every "
-         "schedule of read sizes (entries >= 1) and every buffer capacity (production default or max-pattern-length + spare, spare >= 1), "
+         "schedule of read sizes (entries >= 1) and EVERY buffer capacity with one byte of room beyond the longest pattern (hypothesis "
+         "hcap; corollaries _default, _factor, _spare), "
          "the transcription of Buffer{new,fill,roll} + StreamChunkIter::next on the ideal standard automaton yields exactly the matches "
          "of the in-memory iterator = the specification's iterator, reports no I/O error and never calls read with an empty buffer. "
          "Proved by an invariant over (buffer = last bytes read, absolute_pos, buffer_pos, reported_pos, automaton state = scan from the "
          "last match end). Differential: schedule-driven reader against the real stream_find_iter under the cfg-guarded capacity hook "
-         "(all compositions of short streams, random schedules, production 64 KiB boundary).", "5 C07",
+         "(all compositions of short streams, random schedules, production 64 KiB boundary). The capacity the real Buffer::new chooses "
+         "is OBSERVED through a hook for a sweep of longest-pattern lengths (up to 2^21 / 2^23), hcap is decided for each observation by "
+         "the Lean driver, production-capacity requests carry the observed capacity, and stream-vs-in-memory self-comparison of the "
+         "real searcher runs with synthetic 9 KB - 600 KB patterns.", "5 C07",
          "Lean invariant proof of the stream state machine + schedule-enumerating differential under the capacity hook"),
  "C08": ("proof",
          "C08_chunks_concat: the chunks concatenate to the stream and each match chunk carries exactly the matched bytes; "
